@@ -105,6 +105,40 @@ fn dump(n: &NodeDump, out: &mut String) {
     }
 }
 
+/// C16: the shared-data view of the whole family: for every stored node that holds `NodeData::Shared`, the router
+/// it is in, its template, the identity of the `Arc` (numbered by first appearance in this line) and its strong count.
+fn arcs_line(routers: &HashMap<String, Router<u32>>) -> String {
+    fn walk(n: &NodeDump, slot: &str, acc: &mut Vec<(String, String, usize, usize)>) {
+        if let Some(d) = &n.data {
+            if let Some((ptr, count)) = d.arc {
+                acc.push((slot.to_owned(), hex(d.template.as_bytes()), ptr, count));
+            }
+        }
+        for kids in &n.children {
+            for c in kids {
+                walk(c, slot, acc);
+            }
+        }
+    }
+    let mut slots: Vec<&String> = routers.keys().collect();
+    slots.sort_by_key(|s| s.parse::<u64>().unwrap_or(u64::MAX));
+    let mut acc = Vec::new();
+    for s in slots {
+        let r = &routers[s];
+        if catch_unwind(AssertUnwindSafe(|| walk(&r.verif_dump(&|d| u64::from(*d)), s, &mut acc))).is_err() {
+            return "arcs-panic".to_owned();
+        }
+    }
+    let mut ids: HashMap<usize, usize> = HashMap::new();
+    let mut line = format!("arcs {}", acc.len());
+    for (slot, tm, ptr, count) in acc {
+        let next = ids.len();
+        let id = *ids.entry(ptr).or_insert(next);
+        write!(line, " {slot} {tm} {id} {count}").unwrap();
+    }
+    line
+}
+
 fn dump_and_display(r: &Router<u32>) -> String {
     match catch_unwind(AssertUnwindSafe(|| {
         let mut s = String::new();
@@ -218,12 +252,14 @@ fn main() {
             "new" => {
                 routers.insert(t[1].to_owned(), Router::new());
                 writeln!(out, "new {}", t[1]).unwrap();
+                writeln!(out, "{}", arcs_line(&routers)).unwrap();
             }
             "clone" => {
                 let c = routers[t[1]].clone();
                 routers.insert(t[2].to_owned(), c);
                 writeln!(out, "clone {} {}", t[1], t[2]).unwrap();
                 writeln!(out, "dumpof {} {}", t[2], dump_and_display(&routers[t[2]])).unwrap();
+                writeln!(out, "{}", arcs_line(&routers)).unwrap();
             }
             "cons" => {
                 let r = routers.get_mut(t[1]).unwrap();
@@ -292,6 +328,7 @@ fn main() {
                     dump_and_display(r)
                 )
                 .unwrap();
+                writeln!(out, "{}", arcs_line(&routers)).unwrap();
             }
             "delete" => {
                 let r = routers.get_mut(t[1]).unwrap();
@@ -325,6 +362,7 @@ fn main() {
                     dump_and_display(r)
                 )
                 .unwrap();
+                writeln!(out, "{}", arcs_line(&routers)).unwrap();
             }
             "search" => {
                 let r = &routers[t[1]];
